@@ -414,6 +414,9 @@ class Dataset(AbstractDataset, dict, OpMixin, GetSetDelAttrMixin):
         # start with the axes, to make sure the ordering is maintained
         data.axes = self._getaxes_ortho(tuple_indices) 
         for nm in names:
+            if self[nm].ndim == 0:
+                data[nm] = self[nm] # nothing to index (take would return a bare scalar)
+                continue
             data[nm] = self[nm].take(indices={dim:dict_indices[dim] for dim in self[nm].dims}, indexing='position')
         data.attrs.update(self.attrs) # dataset's metadata
         return data
